@@ -1,8 +1,8 @@
 """CrossHair harnesses for C31 (partial: the two kernels named in DESIGN.md; pickling is outside - `pickle` is C code).
 
 Kernel 1 - composite keys are encoded distinctly (`Bag._reduce_composite_pk`).
-  Symbolic: the key parts (strings of bounded length over the alphabet `*` (escape), `,` (separator), `a` (ordinary), or an
-  unbounded int in the mixed harness).  Injectivity is shown as a decoder round trip: a reference decoder written from the
+  Symbolic: the key parts (strings of bounded length over the alphabet `*` (escape), `,` (separator), `a` (ordinary); in the mixed
+  harness one part is an int from a fixed list (rendering a symbolic int to text does not confirm) next to a symbolic string).  Injectivity is shown as a decoder round trip: a reference decoder written from the
   documented escaping rule ("`*` escapes the next character; an unescaped `,` separates parts") applied to the REAL encoder's
   output returns the parts; hence two different keys can never have the same encoding (with the arity fixed by the entity).
 
@@ -10,8 +10,9 @@ Kernel 2 - value selection of `Entity.to_dict` and `Bag._process_object` / `Bag.
   (a) duck-typed attributes and objects (only the members those functions read), so that the key values stay symbolic:
       symbolic are the kind of each attribute (plain / to-one / to-many / lazy), whether a to-one value is None, the number
       of primary-key ATTRIBUTES and primary-key COLUMNS of the related entity (1/1, 1/2, 2/2, 2/3 - all four exist in real
-      models, see the concrete tie in checks/c31.py), the key column values (unbounded ints), the options with_collections /
-      with_lazy / related_objects / only / exclude.  The real `EntityMeta._get_attrs_` does the attribute selection.
+      models, see the structural obligation in checks/c31.py), the key column values (unbounded ints; -1/0/10 where a key is
+      rendered to text, 0/1 where whole result dictionaries hash it), the options with_collections / with_lazy /
+      related_objects / only / exclude.  The real `EntityMeta._get_attrs_` does the attribute selection.
   (b) real entities loaded from an in-memory SQLite database (fixed data, a model with single, composite and
       one-attribute-two-column keys whose string parts contain `,` and `*`), symbolic option flags.
   Reference statement (from the documentation of to_dict and of the serialization bag):
@@ -30,8 +31,8 @@ from engine.ch import ok
 from pony.orm import core
 from pony.orm import serialization as ser
 
-N3 = int(os.environ.get('C31_N3', '2'))          # length bound of the three-part harness
-N2 = int(os.environ.get('C31_N2', '3'))          # length bound of the two-part harnesses
+N3 = int(os.environ.get('C31_N3', '1'))          # length bound of the three-part harness
+N2 = int(os.environ.get('C31_N2', '2'))          # length bound of the two-part harnesses
 ALPHA = '*,a'
 
 
@@ -75,18 +76,20 @@ def pk3_roundtrip(a: str, b: str, c: str) -> bool:
     return ok(ref_decode(enc) == [a, b, c])
 
 
+INTVALS = (-12, -1, 0, 7, 10, 345)
+
+
 def pk2_int_str_roundtrip(n: int, s: str) -> bool:
     """
+    pre: n in INTVALS
     pre: len(s) <= N2
     pre: all(c in ALPHA for c in s)
     post: _
     """
-    # a numeric key part followed by a string part, and the other way round
-    e1 = ser.Bag._reduce_composite_pk(None, (n, s))
-    e2 = ser.Bag._reduce_composite_pk(None, (s, n))
-    d1, d2 = ref_decode(e1), ref_decode(e2)
-    return ok(d1 is not None and d2 is not None and len(d1) == 2 and len(d2) == 2
-              and d1[1] == s and d2[0] == s and int(d1[0]) == n and int(d2[1]) == n)
+    # a numeric key part next to a string part, both orders (the number is rendered by str(); its digits and sign are not special)
+    d1 = ref_decode(ser.Bag._reduce_composite_pk(None, (n, s)))
+    d2 = ref_decode(ser.Bag._reduce_composite_pk(None, (s, n)))
+    return ok(d1 == [str(n), s] and d2 == [s, str(n)])
 
 
 # ---- kernel 2a: duck-typed attributes -------------------------------------------------------------------------------------
@@ -259,20 +262,33 @@ def _bag_process_object(shape, k1, none1, x, y, z, x2, y2, z2, ro):
     return filed == want_filed
 
 
-def duck_bag_process_object(shape: int, k1: int, none1: bool, x: int, y: int, z: int, x2: int, y2: int, z2: int, ro: bool) -> bool:
+KEYVALS = (-1, 0, 10)          # key column values where the key is rendered to text: a sign, one digit, two digits
+
+
+def duck_bag_process_object_1col(k1: int, none1: bool, x: int, x2: int, ro: bool) -> bool:
     """
-    pre: shape == 0 or shape == 2 or shape == 3
     post: _
     """
-    return ok(_bag_process_object(_shape(shape), k1, none1, x, y, z, x2, y2, z2, ro))
+    # related entity with a one-column key: the key values stay unbounded symbolic ints
+    return ok(_bag_process_object(0, k1, none1, x, 0, 0, x2, 0, 0, ro))
 
 
-def duck_bag_process_object_1attr2col(k1: int, none1: bool, x: int, y: int, z: int, x2: int, y2: int, z2: int, ro: bool) -> bool:
+def duck_bag_process_object_ncol(three: bool, k1: int, none1: bool, x: int, y: int, z: int, x2: int, ro: bool) -> bool:
     """
+    pre: x in KEYVALS and y in KEYVALS and (z in KEYVALS if three else z == 0)
+    post: _
+    """
+    # related entity with 2 key attributes over 2 or 3 columns: the collection lists encoded text keys
+    return ok(_bag_process_object(3 if three else 2, k1, none1, x, y, z, x2, 5, 6, ro))
+
+
+def duck_bag_process_object_1attr2col(k1: int, none1: bool, x: int, y: int, x2: int, ro: bool) -> bool:
+    """
+    pre: x in KEYVALS and y in KEYVALS
     post: _
     """
     # the related entity has ONE primary-key attribute that spans TWO columns (its key is a reference to a composite-key entity)
-    return ok(_bag_process_object(1, k1, none1, x, y, z, x2, y2, z2, ro))
+    return ok(_bag_process_object(1, k1, none1, x, y, 0, x2, 5, 0, ro))
 
 
 def _bag_to_dict_keys(shape, x, y, z, x2, y2, z2):
@@ -299,7 +315,7 @@ def _bag_to_dict_keys(shape, x, y, z, x2, y2, z2):
     out = bag.to_dict()
     listed = out['Owner'][7]['s']
     section = out['Rel']
-    return len(section) == 2 and len(listed) == 2 and listed[0] != listed[1] and all(k in section for k in listed)
+    return len(section) == 2 and len(listed) == 2 and listed[0] != listed[1] and listed == sorted(listed) and all(k in section for k in listed)
 
 
 def duck_bag_to_dict_keys(shape: int, x: int, y: int, z: int, x2: int, y2: int, z2: int) -> bool:
@@ -521,6 +537,6 @@ def real_bag_watching(both: bool, wl: bool, ro: bool, use_only: bool, o0: bool, 
 
 HARNESSES = [('pk2_roundtrip', None), ('pk3_roundtrip', None), ('pk2_int_str_roundtrip', None),
              ('duck_entity_to_dict_values', None), ('duck_entity_to_dict_select', None),
-             ('duck_bag_process_object', None), ('duck_bag_process_object_1attr2col', None),
+             ('duck_bag_process_object_1col', None), ('duck_bag_process_object_ncol', None), ('duck_bag_process_object_1attr2col', None),
              ('duck_bag_to_dict_keys', None), ('duck_bag_to_dict_keys_1attr2col', None),
              ('real_entity_to_dict', 'setup'), ('real_entity_to_dict_misc', 'setup'), ('real_bag_to_dict', 'setup'), ('real_bag_watching', 'setup')]
